@@ -135,6 +135,22 @@ func c02Type1(c *h.Ctx, n int) {
 		for bit := 0; bit < 8*len(resp); bit++ {
 			c02Judge(c, "type1:bitflip:every-position", fin(flipBit(resp, bit)), valid, 1, true, det("bit", bit))
 		}
+		// a request filed under the SAME key id bytes but for ANOTHER key (made after requests for the first key): it must
+		// be checked against the key it was created for, so the first issuer's answer to it is refused
+		if stF, errF := client.CreateTokenRequest(chal, nonce, kid, issB.TokenKey()); errF == nil {
+			if respF, e := iss.Evaluate(stF.Request()); e == nil {
+				var o c02Out
+				o.pan, o.msg = h.Protect(func() {
+					t, e := stF.FinalizeToken(respF)
+					o.err = e
+					if e == nil {
+						o.toks = []tokens.Token{t}
+					}
+				})
+				never := func(int, tokens.Token) bool { return false }
+				c02Judge(c, "type1:foreign:same-key-id-bytes-other-key", o, never, 1, true, det("case", "same key id, other key"))
+			}
+		}
 		c02Judge(c, "type1:foreign:other-issuer-key", fin(respB), valid, 1, true, det("case", "other key"))
 		c02Judge(c, "type1:foreign:other-request-same-key", fin(respOther), valid, 1, true, det("case", "other request"))
 		c02Judge(c, "type1:foreign:element-of-other-proof-of-own", fin(cat(respOther[:49], resp[49:])), valid, 1, true, det("case", "mixed"))
